@@ -115,6 +115,24 @@ def emit(p, fname, naming=0):
                           % (c, a, cmpop, r, x, c, x, first, x, second, x, c))
         return sig + "\t%s := float64(%s) / float64(%s)\n\tif %s %s 1 {\n\t\treturn %s\n\t} else {\n\t\treturn %s\n\t}\n}\n" % (
             x, a, b, x, cmpop, first, second)
+    if t == "orand":
+        T, E = expr(p["thenE"], N, pres), expr(p["elseE"], N, pres)
+        return sig + "\tif (%s %s 0 && %s %s 0) || (%s < -2 && %s < -2) {\n\t\treturn %s\n\t} else {\n\t\treturn %s\n\t}\n}\n" % (
+            a, p["cmp"], b, p["cmp"], a, b, T, E)
+    if t == "switch2":
+        T, E = expr(p["thenE"], N, pres), expr(p["elseE"], N, pres)
+        return sig + "\tswitch %s {\n\tcase 0, 1:\n\t\treturn %s\n\tcase 2, 5:\n\t\treturn %s\n\tdefault:\n\t\treturn %d\n\t}\n}\n" % (
+            a, T, E, p["small"])
+    if t == "ubig":
+        K = {"max": "0xFFFFFFFFFFFFFFFF", "max7": "0xFFFFFFFFFFFFFFF8", "hi16": "0xFFFFFFFFFFFF0000", "mid": "0x8000000000000000"}[p["k"]]
+        return sig + "\tif uint64(%s) > %s {\n\t\treturn %s + 1\n\t}\n\treturn %s + %d\n}\n" % (a, K, b, b, p["small"])
+    if t == "consttype":
+        return sig + "\treturn kind(%s(1)) + %s\n}\n" % (p["ty"], b)
+    if t == "sibloops":
+        i, j = N["i"], N["j"]
+        ret = {"i-j": "%s - %s" % (i, j), "j-i": "%s - %s" % (j, i), "i+j": "%s + %s" % (i, j), "i*2+j": "%s*2 + %s" % (i, j)}[p["ret"]]
+        return sig + ("\t%s := 0\n\tfor ; %s < clamp(%s); %s++ {\n\t}\n\t%s := 0\n\tfor ; %s < clamp(%s); %s++ {\n\t}\n\treturn %s\n}\n"
+                      % (i, i, a, i, j, j, b, j, ret))
     if t == "extract":
         x, y = N["x"], N["y"]
         v = x if p["sel"] == "x" else y
@@ -125,7 +143,7 @@ def emit(p, fname, naming=0):
     raise KeyError(t)
 
 
-HEADER = 'package %s\n\nimport (\n\t"math/bits"\n\t"unicode/utf16"\n\t"unicode/utf8"\n)\n\nvar _ = bits.Len8\nvar _ = utf16.RuneLen\nvar _ = utf8.RuneLen\n\nfunc clamp(v int) int {\n\tif v < 0 {\n\t\treturn 0\n\t}\n\tif v > 4 {\n\t\treturn 4\n\t}\n\treturn v\n}\n\nvar picks = [5]string{"", "ab", "abc", "abd", "b"}\n\nfunc pick(v int) string { return picks[clamp(v)] }\n\nvar tabs = [5][]int{{}, {1}, {3, -1}, {2, 2, 5}, {0, 4, 1, 7}}\n\nfunc tab(v int) []int { return tabs[clamp(v)] }\n\nfunc b2i(c bool) int {\n\tif c {\n\t\treturn 1\n\t}\n\treturn 0\n}\n\nfunc dm(x, y int) (int, int) { return x + y, x - y }\n\n'
+HEADER = 'package %s\n\nimport (\n\t"math/bits"\n\t"unicode/utf16"\n\t"unicode/utf8"\n)\n\nvar _ = bits.Len8\nvar _ = utf16.RuneLen\nvar _ = utf8.RuneLen\n\nfunc clamp(v int) int {\n\tif v < 0 {\n\t\treturn 0\n\t}\n\tif v > 4 {\n\t\treturn 4\n\t}\n\treturn v\n}\n\nvar picks = [5]string{"", "ab", "abc", "abd", "b"}\n\nfunc pick(v int) string { return picks[clamp(v)] }\n\nvar tabs = [5][]int{{}, {1}, {3, -1}, {2, 2, 5}, {0, 4, 1, 7}}\n\nfunc tab(v int) []int { return tabs[clamp(v)] }\n\nfunc b2i(c bool) int {\n\tif c {\n\t\treturn 1\n\t}\n\treturn 0\n}\n\nfunc dm(x, y int) (int, int) { return x + y, x - y }\n\nfunc kind(v any) int {\n\tswitch v.(type) {\n\tcase int32:\n\t\treturn 1\n\tcase int64:\n\t\treturn 2\n\t}\n\treturn 3\n}\n\n'
 
 
 def render_file(pkg, items):
